@@ -698,7 +698,15 @@ class Extractor:
             target = self.repo.lookup_method(self.cls, name)
             if target is None:
                 raise AnalysisError('templates: unknown emitter method %s' % name)
-            return self.call(target, args, st)
+            try:
+                snapshot = st.copy()
+                return self.call(target, args, st)
+            except AnalysisError:
+                # a helper that inspects the code tree (loops over it, tests node classes): kept as an opaque
+                # predicate over the tree; evaluated on the sample trees when templates are instantiated
+                if all(isinstance(a, (SObj, SInt, bool, type(None), Lit)) for a in args):
+                    return [(snapshot, ('pred', target, list(args)))]
+                raise
         if isinstance(recv, Lit) and name == 'join':
             a = args[0]
             if isinstance(a, PyList):
@@ -850,6 +858,18 @@ class TemplateSet:
 
     def _guard_ok(self, g, env, ind, loop):
         v = g.value
+        if isinstance(v, tuple) and v and v[0] == 'pred':
+            args = []
+            for a in v[2]:
+                if isinstance(a, SObj):
+                    args.append(self._val(a.expr, env))
+                elif isinstance(a, SInt):
+                    args.append(self._state_val(a, ind, loop))
+                elif isinstance(a, Lit):
+                    args.append(a.t)
+                else:
+                    args.append(a)
+            return bool(TreePredicate(self.repo, self.gen_cls).run(v[1], args)) == g.polarity
         if isinstance(v, Doc):
             t = bool(self.render_doc(v, env, ind, loop))
         elif isinstance(v, tuple) and v and v[0] == 'cond' and len(v) == 5 and \
@@ -943,6 +963,155 @@ class TemplateSet:
             e2[ms.var] = item
             out.append(self.render_doc(ms.elem, e2, ind, loop))
         return out
+
+
+class TreePredicate:
+    """evaluates a side-effect-free helper of the emitter (a predicate over the code tree) on a sample
+    tree: isinstance tests, loops, any/all, recursion into other helpers, comparisons"""
+
+    class _Ret(Exception):
+        def __init__(self, v):
+            self.v = v
+
+    def __init__(self, repo, cls):
+        self.repo = repo
+        self.cls = cls
+        self.steps = 0
+
+    def run(self, m, args):
+        env = {'self': self}
+        params = m.params[1:]
+        for p, a in zip(params, args):
+            env[p] = a
+        try:
+            self.block(m.node.body, env, m)
+        except TreePredicate._Ret as r:
+            return r.v
+        return None
+
+    def block(self, stmts, env, m):
+        for s in stmts:
+            self.steps += 1
+            if self.steps > 100000:
+                raise RenderError('tree predicate %s does not terminate' % m.name)
+            if isinstance(s, ast.Return):
+                raise TreePredicate._Ret(self.ev(s.value, env, m) if s.value is not None else None)
+            elif isinstance(s, ast.If):
+                self.block(s.body if self.ev(s.test, env, m) else s.orelse, env, m)
+            elif isinstance(s, ast.For):
+                for item in self.ev(s.iter, env, m):
+                    if not isinstance(s.target, ast.Name):
+                        raise RenderError('tree predicate: unsupported loop target')
+                    env[s.target.id] = item
+                    self.block(s.body, env, m)
+            elif isinstance(s, ast.Assign) and len(s.targets) == 1 and isinstance(s.targets[0], ast.Name):
+                env[s.targets[0].id] = self.ev(s.value, env, m)
+            elif isinstance(s, ast.Expr) and isinstance(s.value, ast.Constant):
+                pass
+            elif isinstance(s, ast.Pass):
+                pass
+            else:
+                raise RenderError('tree predicate %s: unsupported statement %s' % (m.name, type(s).__name__))
+
+    def ev(self, e, env, m):
+        if isinstance(e, ast.Constant):
+            return e.value
+        if isinstance(e, ast.Name):
+            if e.id in env:
+                return env[e.id]
+            r = self.repo.resolve_name(m, e.id)
+            if r and r[0] == 'class':
+                return r[1]
+            if e.id in ('True', 'False', 'None'):
+                return {'True': True, 'False': False, 'None': None}[e.id]
+            raise RenderError('tree predicate: unbound name %s' % e.id)
+        if isinstance(e, ast.Attribute):
+            b = self.ev(e.value, env, m)
+            if isinstance(b, Node):
+                if e.attr in b.fields:
+                    return b.fields[e.attr]
+                raise RenderError('tree predicate: %s has no field %s' % (b.cls, e.attr))
+            raise RenderError('tree predicate: attribute %s of %r' % (e.attr, b))
+        if isinstance(e, ast.BoolOp):
+            if isinstance(e.op, ast.And):
+                v = True
+                for x in e.values:
+                    v = self.ev(x, env, m)
+                    if not v:
+                        return v
+                return v
+            v = False
+            for x in e.values:
+                v = self.ev(x, env, m)
+                if v:
+                    return v
+            return v
+        if isinstance(e, ast.UnaryOp) and isinstance(e.op, ast.Not):
+            return not self.ev(e.operand, env, m)
+        if isinstance(e, ast.Compare) and len(e.ops) == 1:
+            a, b = self.ev(e.left, env, m), self.ev(e.comparators[0], env, m)
+            op = e.ops[0]
+            if isinstance(op, ast.Eq):
+                return a == b
+            if isinstance(op, ast.NotEq):
+                return a != b
+            if isinstance(op, ast.Is):
+                return a is b
+            if isinstance(op, ast.IsNot):
+                return a is not b
+            if isinstance(op, ast.In):
+                return a in b
+            if isinstance(op, ast.NotIn):
+                return a not in b
+            if isinstance(op, (ast.Lt, ast.Gt, ast.LtE, ast.GtE)):
+                return _cmp(op, a, b)
+        if isinstance(e, (ast.List, ast.Tuple)):
+            return [self.ev(x, env, m) for x in e.elts]
+        if isinstance(e, ast.Subscript):
+            b = self.ev(e.value, env, m)
+            i = self.ev(e.slice, env, m) if not isinstance(e.slice, ast.Slice) else None
+            try:
+                return b[i] if i is not None else list(b)
+            except (IndexError, TypeError, KeyError):
+                raise RenderError('tree predicate: subscript out of range')
+        if isinstance(e, ast.UnaryOp) and isinstance(e.op, ast.USub):
+            return -self.ev(e.operand, env, m)
+        if isinstance(e, (ast.GeneratorExp, ast.ListComp)) and len(e.generators) == 1:
+            g = e.generators[0]
+            out = []
+            for item in self.ev(g.iter, env, m):
+                e2 = dict(env)
+                e2[g.target.id] = item
+                if all(self.ev(c, e2, m) for c in g.ifs):
+                    out.append(self.ev(e.elt, e2, m))
+            return out
+        if isinstance(e, ast.Call):
+            if isinstance(e.func, ast.Name):
+                n = e.func.id
+                args = [self.ev(a, env, m) for a in e.args]
+                if n == 'isinstance':
+                    obj, cls = args
+                    classes = cls if isinstance(cls, list) else [cls]
+                    if not isinstance(obj, Node):
+                        return False
+                    oc = None
+                    for c in self.repo.all_classes():
+                        if c.name == obj.cls:
+                            oc = c
+                    return oc is not None and any(k in self.repo.mro(oc) for k in classes)
+                if n == 'len':
+                    return len(args[0])
+                if n == 'any':
+                    return any(args[0])
+                if n == 'all':
+                    return all(args[0])
+                if n == 'bool':
+                    return bool(args[0])
+            if isinstance(e.func, ast.Attribute) and is_name(e.func.value, 'self'):
+                target = self.repo.lookup_method(self.cls, e.func.attr)
+                if target is not None:
+                    return self.run(target, [self.ev(a, env, m) for a in e.args])
+        raise RenderError('tree predicate %s: unsupported expression %s' % (m.name, norm(e)[:50]))
 
 
 def walk_doc(d):
